@@ -44,7 +44,6 @@ from __future__ import annotations
 
 import os
 import shutil
-import signal
 import sys
 import zlib
 
@@ -688,6 +687,14 @@ def _kind(v):
     return str(v)
 
 
+def _pred_detail(fam, pred, ref):
+    """parents: the kind of commit asked about is part of the class (an octopus is encoded differently
+    from a two-parent merge in a commit-graph)."""
+    if fam == "parents" and isinstance(ref, tuple):
+        return pred + "@" + ("root", "single-parent", "merge", "octopus")[min(len(ref), 3)]
+    return pred
+
+
 def diff(ref, got):
     """{query: (ref answer, got answer)} for the queries whose answers differ.
 
@@ -840,7 +847,13 @@ def write_config(path, config, repo=None):
         for (aa, v) in config:
             if aa == a:
                 live = repo if not v.startswith("g") else None
-                if not write_accel(path, aa, v, live):
+                try:
+                    wrote = write_accel(path, aa, v, live)
+                except HarnessError:
+                    raise
+                except Exception as e:
+                    raise WriterFailed("%s[%s]" % (aa, v), type(e).__name__)
+                if not wrote:
                     empty.append((aa, v))
     return tuple(empty)
 
@@ -882,7 +895,7 @@ DEPENDS = {
 # masked only when the sibling family deviates with the *same* predicate in the same run
 SIBLING = {"reach_commits+excl": ("reach_commits",), "reach_objects+excl": ("reach_objects", "reach_commits"),
            "reach_objects": ("reach_commits",), "mof": ("reach_commits",), "walk+excl": ("walk",),
-           "get_raw": ("getitem",)}
+           "get_raw": ("getitem",), "parents": ("getitem",)}
 
 
 def judge(acc: Acc, h: Hist, layout, config, step, mode, A, ref, explain, replay, ref_kind="plain", fresh_seen=None):
@@ -901,6 +914,7 @@ def judge(acc: Acc, h: Hist, layout, config, step, mode, A, ref, explain, replay
     acc.count("queries", len(A))
     cname = cfg_name(config)
     cls = _accel_class(config) if config else "none@" + layout
+    acc.count("judged:%s:%s" % (cls, scen))
     if not d:
         acc.outcome("%s:%s:same" % (cls, scen))
         return d
@@ -927,6 +941,7 @@ def judge(acc: Acc, h: Hist, layout, config, step, mode, A, ref, explain, replay
         fam = q[0]
         pred = predicate(r, g)
         masked = [p for p in DEPENDS.get(fam, ()) if p in dev_fams] + [p for p in SIBLING.get(fam, ()) if (p, pred) in dev_preds]
+        pred = _pred_detail(fam, pred, r)
         if masked:
             acc.outcome("%s:%s:%s:%s:masked-by-primitive:%s" % (who, scen, fam, pred, masked[0]))
             continue
@@ -955,10 +970,28 @@ def _accel_class(config):
     return "+".join(a for a, _ in config)
 
 
+class WriterFailed(Exception):
+    """A dulwich accelerator writer raised (args: accelerator name, exception type name)."""
+
+
+class StepFailed(Exception):
+    """The continuation step itself raised in a repository with accelerators / another layout
+    (it succeeded in the reference repository)."""
+
+
+def _apply_step_observed(h, step, path):
+    try:
+        apply_step(h, step, path)
+    except HarnessError:
+        raise
+    except Exception as e:
+        raise StepFailed(type(e).__name__)
+
+
 def run_fresh(h: Hist, path, step):
     """Apply `step` (if any) to the repository at `path` and answer the battery with a fresh Repo."""
     if step is not None:
-        apply_step(h, step, path)
+        _apply_step_observed(h, step, path)
     r = _open(path)
     try:
         return battery(h, r)
@@ -1010,6 +1043,26 @@ def probe_bitmap_files(acc: Acc, h: Hist, path, variant):
         r.close()
 
 
+def probe_loaded(acc: Acc, path, av):
+    """Vacuity guard material: does a freshly opened Repo actually load the file that was written?"""
+    a, v = av
+    r = _open(path)
+    try:
+        if a == "cg":
+            g = r.object_store.get_commit_graph()
+            ok = g is not None and len(g) > 0
+        elif a == "midx":
+            m = r.object_store.get_midx()
+            ok = m is not None and len(m) > 0
+        elif a == "prefs":
+            ok = len(r.refs.get_packed_refs()) > 0
+        else:
+            ok = any(p.bitmap is not None for p in r.object_store.packs)
+        acc.outcome("accel-%s:%s[%s]" % ("loaded-by-fresh-repo" if ok else "NOT-loaded", a, v))
+    finally:
+        r.close()
+
+
 def run_live(h: Hist, path, config, step, acc=None):
     """A long-lived Repo object: opened first, accelerators written through it (C git variants:
     behind its back), battery answered once (warms every cache); then another Repo object performs
@@ -1030,7 +1083,7 @@ def run_live(h: Hist, path, config, step, acc=None):
         a2 = None
         if step is not None:
             pin = _Pin(path)
-            apply_step(h, step, path)
+            _apply_step_observed(h, step, path)
             a2 = battery(h, r)
         return a1, a2, empty
     finally:
@@ -1109,6 +1162,8 @@ def _fresh_answers(h, layout, config, step, work, snap_cache, acc=None):
         snap_cache[k] = (SS.snapshot(p), empty)
         if acc is not None and len(config) == 1 and config[0][0] == "bitmap":
             probe_bitmap_files(acc, h, p, config[0][1])
+        if acc is not None and len(config) == 1 and not empty:
+            probe_loaded(acc, p, config[0])
         if step is None:
             return run_fresh(h, p, None), empty
     snap, empty = snap_cache[k]
@@ -1156,13 +1211,42 @@ def _eval_configs(acc, h, layout, configs, steps, mode, work, refcache, standalo
             if not step_applicable(h, step):
                 continue
             R = _reference(h, step, work, refcache)
-            A, empty = answers(config, step)
+            try:
+                A, empty = answers(config, step)
+            except WriterFailed as e:
+                key = _key("%s@%s:fresh:write:raises-%s" % (e.args[0], layout, e.args[1]))
+                acc.outcome(key)
+                acc.count("configurations")
+                acc.violation(key, "%s | layout=%s accel=%s mode=%s | writing the accelerator raised %s"
+                              % (h.name, layout, cfg_name(config), mode, e.args[1]), rp(case_config, h.dag, layout, config, None, mode))
+                break
+            except StepFailed as e:
+                if config:
+                    try:
+                        answers((), step)
+                    except StepFailed as e0:
+                        if e0.args == e.args:  # the layout alone makes the step fail the same way
+                            acc.outcome("%s:%s:step-failure-explained-by:%s" % (_accel_class(config), STEP_CLASS[step], _layout_key(layout)))
+                            acc.count("configurations")
+                            continue
+                who = cfg_name(config) if config else _layout_key(layout)
+                key = _key("%s:%s:step:raises-%s" % (who, STEP_CLASS[step] + ("+live" if mode == "live" else ""), e.args[0]))
+                acc.outcome(key)
+                acc.count("configurations")
+                if step in steps:
+                    acc.violation(key, "%s | layout=%s accel=%s step=%s mode=%s | the step itself raised %s (it succeeds without "
+                                  "accelerators on loose objects)" % (h.name, layout, cfg_name(config), step, mode, e.args[0]),
+                                  rp(case_config, h.dag, layout, config, step, mode))
+                continue
             if empty and step is None:
                 acc.outcome("writer-produced-nothing:%s:%s" % (cfg_name(empty), "loose" if layout == "loose" else "packed"))
             explain = []
             ref, ref_kind = R, "plain: loose objects, loose refs, fresh Repo"
             if config:
-                A0, _ = answers((), step)
+                try:
+                    A0, _ = answers((), step)
+                except (StepFailed, WriterFailed):
+                    A0 = R  # (reported for the empty configuration itself)
                 if mode == "live":
                     # a long-lived object without accelerators is the baseline of the live mode; its own
                     # deviations from a fresh object are C10's business (readers vs repacks), not C14's
@@ -1174,7 +1258,10 @@ def _eval_configs(acc, h, layout, configs, steps, mode, work, refcache, standalo
                     explain.append((_layout_key(layout), A0))
                 if len(config) > 1:
                     for av in config:
-                        explain.append((cfg_name((av,)), answers((av,), step)[0]))
+                        try:
+                            explain.append((cfg_name((av,)), answers((av,), step)[0]))
+                        except (StepFailed, WriterFailed):
+                            pass
             elif mode == "live":
                 d0 = diff(R, A)
                 for q in d0:
@@ -1363,6 +1450,7 @@ def _judge_untrusted(acc, who, scen, A, R, what, replay):
         pred = predicate(r, g)
         masked = [p for p in DEPENDS.get(fam, ()) if p in dev_fams and p != fam] + [
             p for p in SIBLING.get(fam, ()) if (p, pred) in dev_preds]
+        pred = _pred_detail(fam, pred, r)
         if masked:
             acc.outcome("%s:%s:%s:%s:masked-by-primitive:%s" % (who, scen, fam, pred, masked[0]))
             continue
@@ -1390,7 +1478,8 @@ DAMAGE_FAMILIES = {
     "midx": {"getitem", "contains", "get_raw", "iter"},
     "bitmap": {"reach_commits", "reach_objects", "mof"},
 }
-DAMAGE_TIMEOUT = 8  # seconds of CPU time; the restricted battery needs ~0.05 s
+DAMAGE_CPU_S = 8  # seconds of CPU time (sandbox limit); the restricted battery needs ~0.05 s
+DAMAGE_WALL_S = 900  # wall-clock watchdog of the sandbox (only a sleeping process can reach it)
 
 
 def chunk_regions(data, header_len):
@@ -1457,83 +1546,112 @@ def _damage_target(work, fixture, kind, writer):
     return h, p, rel
 
 
-class _Alarm:
-    def __enter__(self):
-        def onalarm(*_):
-            raise _Timeout()
-
-        # CPU time of this process, not wall time: the verdict must not depend on the machine's load
-        self.old = signal.signal(signal.SIGPROF, onalarm)
-        signal.setitimer(signal.ITIMER_PROF, DAMAGE_TIMEOUT)
-
-    def __exit__(self, *a):
-        signal.setitimer(signal.ITIMER_PROF, 0)
-        signal.signal(signal.SIGPROF, self.old)
-
-
 _DMG = {}
 
 
-def case_damage(acc: Acc, fixture, kind, writer, desc):
-    """One single-fault mutant of one accelerator file of a fixture repository."""
-    desc = tuple(desc)
-    k = (fixture, kind, writer)
-    if _DMG.get("k") != k or _DMG.get("pid") != os.getpid():
-        if _DMG.get("work"):
-            rmtree(_DMG["work"])
-        work = fresh_dir("c14d")
-        h, p, rel = _damage_target(work, fixture, kind, writer)
-        data = open(os.path.join(p, rel), "rb").read()
+def _damage_prepare(work, fixture, kind, writer, with_reference):
+    """Fixture repository with the accelerators, the target file's bytes and region table; with_reference:
+    also the answers without the file (R) and with the intact file (A0)."""
+    h, p, rel = _damage_target(work, fixture, kind, writer)
+    data = open(os.path.join(p, rel), "rb").read()
+    g = dict(h=h, p=p, rel=rel, data=data, reg=damage_positions(kind, data)[1])
+    if with_reference:
         snap = SS.snapshot(p)
-        # reference: the same repository with the file removed
         q = os.path.join(work, "plain")
         SS.restore(snap, q)
         os.unlink(os.path.join(q, rel))
         r = _open(q)
         try:
-            R = battery(h, r, DAMAGE_FAMILIES[kind])
+            g["R"] = battery(h, r, DAMAGE_FAMILIES[kind])
         finally:
             r.close()
-        # the intact file must not change anything either (else the damage verdicts mean nothing)
         r = _open(p)
         try:
-            A0 = battery(h, r, DAMAGE_FAMILIES[kind])
+            g["A0"] = battery(h, r, DAMAGE_FAMILIES[kind])  # the intact file (its own deviations are not the damage's)
         finally:
             r.close()
+    return g
+
+
+def sb_damage(inp):
+    """Runs INSIDE the E6 sandbox (engines/sandbox.py: RLIMIT_AS, CPU limit, wall-clock watchdog; a worker that
+    dies or hangs is an observation attributed to exactly this input).  Returns the answers of the restricted
+    battery with the mutant file in place."""
+    base, fixture, kind, writer, desc = inp
+    desc = tuple(desc)
+    k = (fixture, kind, writer, os.getpid())
+    if _DMG.get("k") != k:
+        from engines import common
+
+        work = os.path.join(base, "sb%d" % os.getpid())
+        os.makedirs(work, exist_ok=True)
+        common._scratch_root, common._scratch_owner = work, os.getpid()  # (HOME of the git calls; removed by the caller)
         _DMG.clear()
-        _DMG.update(k=k, pid=os.getpid(), work=work, h=h, p=p, rel=rel, data=data, R=R, A0=A0,
-                    reg=damage_positions(kind, data)[1])
+        _DMG.update(_damage_prepare(work, fixture, kind, writer, False), k=k)
     g = _DMG
     path = os.path.join(g["p"], g["rel"])
-    mutant = MF.apply(g["data"], desc)
     with open(path, "wb") as f:
-        f.write(mutant)
-    region = MF.label(desc, g["reg"])
-    acc.count("damage_mutants")
+        f.write(MF.apply(g["data"], desc))
     try:
-        with _Alarm():
-            r = _open(g["p"])
-            try:
-                A = battery(g["h"], r, DAMAGE_FAMILIES[kind])
-            finally:
-                r.close()
-    except _Timeout:
-        acc.outcome("%s[%s]:damaged:hang" % (kind, writer))
-        acc.violation(_key("%s[%s]:damaged@%s:any:no-answer-within-%ds-cpu" % (kind, writer, region, DAMAGE_TIMEOUT)),
-                      "fixture %r %s %r: battery did not finish" % (FIXTURES[fixture][0], g["rel"], desc),
-                      rp(case_damage, fixture, kind, writer, desc))
-        return
+        r = _open(g["p"])
+        try:
+            return battery(g["h"], r, DAMAGE_FAMILIES[kind])
+        finally:
+            r.close()
     finally:
         with open(path, "wb") as f:
             f.write(g["data"])
-    # deviations the intact file shows as well are not caused by the damage
-    ref = dict(g["R"])
-    for q_, v in g["A0"].items():
-        if v != ref[q_] and A.get(q_) == v:
-            ref[q_] = v
-    _judge_untrusted(acc, "%s[%s]" % (kind, writer), "damaged@%s" % region, A, ref,
-                     "fixture %r, %s with %s at byte %d (%s)" % (FIXTURES[fixture][0], g["rel"], desc[0], desc[1], region),
-                     rp(case_damage, fixture, kind, writer, desc))
+
+
+_DREF = {}
+
+
+def damage_batch(acc: Acc, fixture, kind, writer, descs):
+    """Single-fault mutants of one accelerator file of a fixture repository, each evaluated in the sandbox."""
+    from engines import sandbox
+
+    descs = [tuple(d) for d in descs]
+    k = (fixture, kind, writer, os.getpid())
+    if _DREF.get("k") != k:
+        work = fresh_dir("c14d")
+        _DREF.clear()
+        _DREF.update(_damage_prepare(work, fixture, kind, writer, True), k=k, base=fresh_dir("c14sb"))
+    g = _DREF
+    pool = sandbox.get_pool(None, cpu_s=DAMAGE_CPU_S, wall_s=DAMAGE_WALL_S)
+    obs = pool.map_observe("props.C14:sb_damage", [(g["base"], fixture, kind, writer, list(d)) for d in descs])
+    who = "%s[%s]" % (kind, writer)
+    for desc, o in zip(descs, obs):
+        region = MF.label(desc, g["reg"])
+        acc.count("damage_mutants")
+        replay = rp(case_damage, fixture, kind, writer, desc)
+        what = "fixture %r, %s with %s at byte %d (%s)" % (FIXTURES[fixture][0], g["rel"], desc[0], desc[1], region)
+        if o.kind == "ret":
+            A = o.value
+            ref = dict(g["R"])
+            for q_, v in g["A0"].items():
+                if v != ref[q_] and A.get(q_) == v:
+                    ref[q_] = v
+            _judge_untrusted(acc, who, "damaged@%s" % region, A, ref, what, replay)
+            continue
+        if o.kind == "exc":
+            raise HarnessError("sandboxed damage evaluation failed: %r (%s)" % (o.value, what))
+        if o.kind == "timeout":
+            pred = "no-answer-within-%ds-cpu" % DAMAGE_CPU_S if o.value == "cpu" else "no-answer-within-%ds-wall" % DAMAGE_WALL_S
+        elif o.kind == "sig":
+            pred = "process-killed-by-%s" % o.value
+        elif o.kind == "exit":
+            pred = "process-exited"
+        else:
+            raise HarnessError("unexpected sandbox observation %r (%s)" % (o, what))
+        acc.outcome("%s:damaged:%s" % (who, pred))
+        acc.count("configurations")
+        acc.violation(_key("%s:damaged@%s:any:%s" % (who, region, pred)), "%s: the battery did not finish (%s %s)"
+                      % (what, o.kind, o.value), replay)
+
+
+def case_damage(acc: Acc, fixture, kind, writer, desc):
+    """One single-fault mutant (replay entry point)."""
+    damage_batch(acc, fixture, kind, writer, [desc])
 
 
 # --------------------------------------------------------------------------- task plumbing
@@ -1554,8 +1672,7 @@ def work(task):
                 case_foreign(acc, *args)
         elif kind == "damage":
             _, fixture, akind, writer, descs = task
-            for d in descs:
-                case_damage(acc, fixture, akind, writer, d)
+            damage_batch(acc, fixture, akind, writer, descs)
         else:
             raise AssertionError(kind)
     finally:
@@ -1608,10 +1725,15 @@ def run(ctx):
         else:
             tasks.append(("hist", d, tier, MAIN_LAYOUTS + EXTRA_LAYOUTS, light))
     bounds["layouts"] = list(MAIN_LAYOUTS + EXTRA_LAYOUTS)
-    bounds["accelerator subsets"] = ("fresh: all 15 non-empty subsets of {cg, midx, bitmap, packed-refs} by dulwich's writers + every "
-                                     "writer variant alone %r + all four by C git; stale: singles + full sets x %d steps; live: singles%s"
-                                     % (WRITERS, len(STEPS), "" if q else " + full set + C-git singles"))
-    bounds["steps"] = list(STEPS)
+    bounds["accelerator subsets"] = (
+        "fresh: all 15 non-empty subsets of {cg, midx, bitmap, packed-refs} by dulwich's writers + every writer variant alone %r "
+        "+ all four by C git (packed layouts); stale: none + singles + full dulwich set + %s x %d steps; live: none + singles%s x "
+        "(no step + %d steps); extra layouts: none/midx/bitmap%s x (no step + %d steps)"
+        % (WRITERS, "cg[g], prefs[g]" if q else "cg[g], cg[d-all], midx[g], bitmap[g], prefs[g], full C-git set",
+           len(QUICK_STEPS if q else STEPS), "" if q else " + full set + cg[g], midx[g], prefs[g]",
+           len(QUICK_LIVE_STEPS if q else QUICK_STEPS), "" if q else "/cg/full set/midx[g]", 3 if q else 5))
+    bounds["steps"] = list(QUICK_STEPS if q else STEPS)
+    bounds["live steps"] = list(QUICK_LIVE_STEPS if q else QUICK_STEPS)
     # ---- foreign
     n = len(FIXTURES)
     pairs = [(s, d, k, w) for w in (("d",) if q else ("d", "g")) for s in range(n) for d in range(n) if s != d
@@ -1679,15 +1801,21 @@ def run(ctx):
         "deviations of a derived query family are attributed to the primitive family (lookup, membership, parents, ref values) "
         "that deviates in the same run; deviations already present with a fresh accelerator are not repeated for its stale scenarios",
     ]
-    # ---- vacuity guard
-    need = [
-        "cg:fresh:same", "midx:fresh:same", "prefs:stale-refs:same", "none@loose:stale-shrink:same",
-        "none@pack1-v1:fresh:same", "none@pack1-v3:fresh:same", "none@pack2o:fresh:same",
-        "bitmap:live:provider=BitmapReachability:tip-bitmaps-found",  # the bitmap path is really taken in live mode
-    ]
-    absent = [c for c in need if c not in classes]
+    # ---- vacuity guard: the scenarios were exercised and the accelerators were really in play
+    # (independent of whether the answers agreed — a defect must never turn into a HarnessError here)
+    need_counts = ["judged:cg:fresh", "judged:midx:fresh", "judged:bitmap:fresh", "judged:prefs:fresh",
+                   "judged:cg+midx+bitmap+prefs:fresh", "judged:prefs:stale-refs", "judged:cg:stale-shrink",
+                   "judged:midx:stale-relayout", "judged:bitmap:stale-grow", "judged:none@loose:stale-shrink",
+                   "judged:none@pack1-v1:fresh", "judged:none@pack1-v3:fresh", "judged:none@pack2o:fresh",
+                   "judged:cg:fresh+live", "judged:midx:stale-shrink+live", "judged:prefs:stale-refs+live"]
+    absent = [c for c in need_counts if not n_.get(c)]
+    need = ["accel-loaded-by-fresh-repo:cg[d]", "accel-loaded-by-fresh-repo:cg[g]", "accel-loaded-by-fresh-repo:midx[d]",
+            "accel-loaded-by-fresh-repo:midx[g]", "accel-loaded-by-fresh-repo:prefs[d]", "accel-loaded-by-fresh-repo:prefs[g]",
+            "accel-loaded-by-fresh-repo:bitmap[d]", "accel-loaded-by-fresh-repo:bitmap[g]",
+            "bitmap:live:provider=BitmapReachability:tip-bitmaps-found"]  # the bitmap path is really taken in live mode
+    absent += [c for c in need if c not in classes]
     if absent:
-        raise HarnessError("vacuity guard: outcome classes never observed: %r" % absent)
+        raise HarnessError("vacuity guard: never observed: %r" % absent)
     if not any(c.startswith("writer-produced-nothing") for c in classes):
         raise HarnessError("vacuity guard: expected the midx writer to produce nothing for loose layouts")
     if n_.get("damage_mutants", 0) == 0 or n_.get("history_tasks", 0) == 0:
